@@ -430,6 +430,26 @@ func (c01) Table(rows []Ev, tier string, seed int64, rep *TableReport) {
 		}
 	}
 	cls("equal/single-bit", 1504)
+	// packets with particular headers (null packet, PAT, adaptation field only, ...) that differ in one byte behind the header
+	for _, hdr := range [][4]byte{{0x47, 0x1f, 0xff, 0x10}, {0x47, 0x1f, 0xff, 0x1f}, {0x47, 0x00, 0x00, 0x10}, {0x47, 0x40, 0x00, 0x10},
+		{0x47, 0x1f, 0xff, 0x20}, {0x47, 0x1f, 0xff, 0x30}, {0x47, 0x00, 0x01, 0x10}, {0x00, 0x00, 0x00, 0x00}, {0xff, 0xff, 0xff, 0xff}} {
+		for _, fill := range []byte{0xff, 0x00} {
+			var a packet.Packet
+			for i := range a {
+				a[i] = fill
+			}
+			copy(a[:], hdr[:])
+			for pos := 4; pos < 188; pos++ {
+				c := a
+				c[pos] ^= 1 << uint(pos%8)
+				if packet.Equal(&a, &c) || a.Equals(&c) || packet.Equal(&c, &a) {
+					bad("Equal", "different-equal-special-header", &a, Ev{"pos": pos})
+				}
+				compared++
+			}
+		}
+	}
+	cls("equal/special-headers", 9)
 	// differences that a checksum-like comparison would cancel: the same bit / byte / word changed at two places
 	// (every pair of byte positions for one bit; xor, +d/-d and swapped groups of 1, 2, 4 and 8 bytes)
 	{
